@@ -260,6 +260,11 @@ pub fn run_and_check(p: &Program, seed: &SeedMode, opts: &CheckOpts) -> Outcome 
 /// reachable[i]: the root's pass delivers a delta to node i (or to a node sharing its slot) following only operands
 /// whose handle was tracked when the consuming operation was built.
 pub fn reachable_tracked(p: &Program, _flags_at_creation: &[bool]) -> Vec<bool> {
+    reachable_from(p, p.root())
+}
+
+/// as `reachable_tracked`, for a pass started on an arbitrary node
+pub fn reachable_from(p: &Program, root: usize) -> Vec<bool> {
     // recompute flags-at-use by replaying the toggles
     let n = p.nodes.len();
     let mut flags = vec![false; n];
@@ -284,7 +289,6 @@ pub fn reachable_tracked(p: &Program, _flags_at_creation: &[bool]) -> Vec<bool> 
         }
     }
     let mut reach = vec![false; n];
-    let root = p.root();
     reach[p.base(root)] = true;
     reach[root] = true;
     for i in (0..n).rev() {
